@@ -3,6 +3,7 @@ package main
 import (
 	"fmt"
 	"go/token"
+	"go/types"
 
 	"golang.org/x/tools/go/ssa"
 )
@@ -248,6 +249,85 @@ func ruleGlobalSettingPhase(c *Ctx) {
 		[]Ev{newOkEv(h, "ok(validateInternalRequest)", callMatcher(F(P.Method("server", "Server", "validateInternalRequest"))))}, all, "only the PD leader may drive the synchronisation")
 }
 
+// ruleCampaignGate: a member campaigns for a dc-location's allocator only when
+// the PD leader knows the dc-location with an assigned suffix (> 0) and a
+// synchronised MaxTS — with suffix -1 the allocator would serve undifferentiated
+// logical parts while reporting a suffix width.
+func ruleCampaignGate(c *Ctx) {
+	P := c.P
+	const tso = "server/tso"
+	rule := c.Prop + "/local-leader-sync"
+	loop := P.Method(tso, "AllocatorManager", "allocatorLeaderLoop")
+	camp := F(P.Method(tso, "AllocatorManager", "campaignAllocatorLeader"))
+	info := F(P.Method(tso, "AllocatorManager", "getDCLocationInfoFromLeader"))
+	pb := "github.com/pingcap/kvproto/pkg/pdpb"
+	fSuffix := P.Field(pb, "GetDCLocationInfoResponse", "Suffix")
+	fMax := P.Field(pb, "GetDCLocationInfoResponse", "MaxTs")
+	known := &guardEv{name: "the leader knows the dc-location (ok)", match: func(cond ssa.Value, pos bool) bool {
+		e, ok := strip(cond).(*ssa.Extract)
+		if !ok || !pos {
+			return false
+		}
+		cl, _ := e.Tuple.(*ssa.Call)
+		return cl != nil && info.Match(cl.Common()) && e.Index == 0
+	}}
+	suffix := guardRel("suffix > 0", ">", loadOfField(fSuffix), isConstInt(0))
+	maxTS := guardRel("MaxTs != nil", "!=", loadOfField(fMax), isNilConst)
+	c.need(rule, loop, "call campaignAllocatorLeader", instrCallMatcher(camp), []Ev{known, suffix, maxTS}, all,
+		"campaign only for a dc-location the leader reports as known, with a suffix > 0 and a MaxTs")
+}
+
+// ruleAllKnownDCsSynced: the global allocator accepts a synchronisation round
+// only if *every dc-location it knows* answered: the check enumerates the known
+// dc-locations (the map) and looks each up among the synced ones, not the
+// other way round.
+func ruleAllKnownDCsSynced(c *Ctx) {
+	P := c.P
+	const tso = "server/tso"
+	rule := c.Prop + "/estimate-validated"
+	fn := P.Method(tso, "GlobalTSOAllocator", "checkSyncedDCs")
+	c.saw(fnName(fn))
+	var mapParam ssa.Value
+	for _, p := range fn.Params {
+		if _, ok := p.Type().Underlying().(*types.Map); ok {
+			mapParam = p
+		}
+	}
+	// the reported unsynced dc-locations are keys of the known map
+	fromMap := false
+	for _, b := range fn.Blocks {
+		for _, ins := range b.Instrs {
+			cl, ok := ins.(*ssa.Call)
+			if !ok {
+				continue
+			}
+			bi, isB := cl.Call.Value.(*ssa.Builtin)
+			if !isB || bi.Name() != "append" || len(cl.Call.Args) != 2 {
+				continue
+			}
+			elems, _ := sliceElems(cl.Call.Args[1], map[ssa.Value]bool{})
+			for _, e := range elems {
+				if derivesFrom(e, func(v ssa.Value) bool {
+					nx, ok := v.(*ssa.Next)
+					if !ok {
+						return false
+					}
+					rg, ok := nx.Iter.(*ssa.Range)
+					return ok && mapParam != nil && sameVal(rg.X, mapParam)
+				}, 4) {
+					fromMap = true
+				}
+			}
+		}
+	}
+	c.Check(fromMap, rule, "unsynced list in "+fnName(fn), "built by enumerating the known dc-locations (every known one must have been synced)", P.pos(fn.Pos()), "the enumeration does not range over the known dc-locations")
+	// and an incomplete round is never accepted
+	gen := P.Method(tso, "GlobalTSOAllocator", "SyncMaxTS")
+	chk := F(fn)
+	c.need(rule, gen, "a round counted as complete (setSyncRTT)", instrCallMatcher(F(P.Method(tso, "GlobalTSOAllocator", "setSyncRTT"))),
+		[]Ev{newBoolEv(gen, "checkSyncedDCs == true", true, callMatcher(chk))}, all, "a synchronisation round is taken as complete only after checkSyncedDCs reported every known dc-location as synced")
+}
+
 // ruleOverflowCarry: a timestamp whose logical part is set back (assigned a
 // value that is not derived from its old logical part) must have had its
 // physical part advanced first — otherwise the new value is below the old one.
@@ -384,8 +464,8 @@ func ruleSuffixBitsReported(c *Ctx) {
 func init() {
 	register("C05", "Local and global timestamps are mutually consistent", func(c *Ctx) {
 		c.Group("C05/suffix", "suffix width never shrinks; a suffix is create-if-absent, existing ones are returned, new ones are max+1, only the leader assigns", func() { ruleSuffix(c) })
-		c.Group("C05/local-leader-sync", "a new local allocator leader synchronises (Initialize, WriteTSO(MaxTs), suffix width) before it is enabled", func() { ruleLocalLeaderSync(c) })
-		c.Group("C05/estimate-validated", "the global allocator validates its estimate before writing it; the local side bumps an equal maximum and never reports a failed write as synced", func() { ruleGlobalSettingPhase(c) })
+		c.Group("C05/local-leader-sync", "a new local allocator leader synchronises (Initialize, WriteTSO(MaxTs), suffix width) before it is enabled", func() { ruleLocalLeaderSync(c); ruleCampaignGate(c) })
+		c.Group("C05/estimate-validated", "the global allocator validates its estimate before writing it; the local side bumps an equal maximum and never reports a failed write as synced", func() { ruleGlobalSettingPhase(c); ruleAllKnownDCsSynced(c) })
 		c.Group("C05/overflow-carry", "when the estimate's logical part overflows it is reset only together with an advance of its physical part", func() { ruleOverflowCarry(c) })
 		c.Group("C05/suffix-bits-reported", "the suffix width reported with a timestamp is the width used to differentiate it, computed from the largest suffix in use", func() { ruleSuffixBitsReported(c) })
 		c.Group("C05/global-generate", "(shared with C01) a global timestamp is returned only after ok(SyncMaxTS), pre-check and a post-write leadership check", func() { ruleGlobalGenerate(c) })
